@@ -20,7 +20,7 @@ pub fn def() -> CheckDef {
         run,
         rule: "seeded histories (<= 30 ops) in which about half of the path arguments are near-misses: missing parent, wrong type both ways, existing name, non-empty storage, root removal, paths escaping the root, invalid names, out-of-range seeks, set_storage_clsid on a stream, setters on a missing path - at every point of a history, also while handles hold unflushed data. For every call refused with NotFound / AlreadyExists / InvalidInput: the image hash is unchanged (write calls made during a refused call are counted as a probe, not judged - the property speaks of the bytes), and the rest of the history still agrees with the model. Non-trivial: >= 1 refused call checked and >= 1 successful mutation; distinct = distinct (seam log, final image) hash.",
         assumptions: &["reference model as C01 decides which calls must be refused"],
-        cpu_limit_s: 30,
+        cpu_limit_s: 300,
         fault_kinds: "none (seam-level write counter is the oracle)",
         count_subruns: false,
         expect_probes: &[],
